@@ -11,7 +11,7 @@ CHECKS = {
  "C07": ("exploration", "DESIGN.md §4 C07",
          "deterministic simulation: seeded operation histories on the real mem and file stores (file store on a simulated disk) checked op-by-op against an executable ordered-mailbox reference model",
          "Seeded search over store operation histories; every observation of both real back-ends is compared with a small reference model after each operation, and the two back-ends against each other. Evidence, not proof: histories are sampled.",
-         "Trusted: the reference model (sim/models/mailstore.go), the simulated disk (sim/simfs, differential-tested against the real os package), the instrumenter (neutrality self-test: Inbucket's own suite passes on the instrumented copy). Sequential histories only; concurrency is C09."),
+         "Trusted: the reference model (sim/models/mailstore.go), the simulated disk (sim/simfs, differential-tested against the real os package), the instrumenter (neutrality self-test: Inbucket's own suite passes on the instrumented copy). Sequential histories only; concurrency is C09. Histories include deliveries whose source fails half-way (must be refused and change nothing)."),
  "C08": ("exploration", "DESIGN.md §4 C08",
          "deterministic simulation: seeded delivery/remove/purge histories on the real stores with cap x size limit, size-enforcer goroutine scheduled by the simulator, survivors compared with an eviction reference model after every operation",
          "Seeded search over histories and limit configurations; after every operation each mailbox must equal the eviction model (cap first, then globally oldest until the limit is met), fresh messages that fit must be retrievable, and a drift probe fills the whole capacity at the end.",
@@ -19,7 +19,7 @@ CHECKS = {
  "C10": ("exploration", "DESIGN.md §4 C10",
          "deterministic simulation: file store on a simulated disk with 'restart' (new process state, new Store on the same tree, with or without simulated time passing) and retention scans as generated operations; reference model unchanged across restarts",
          "Seeded search over operation histories with 0..n clean restarts at arbitrary points; every observation before and after each restart must match the reference model.",
-         "Trusted: reference model, simulated disk. Restart = same directory tree, new Store object, package-level process state (the message id counter) starts over as in a new process (overlay generated into the scratch copy, DESIGN §11.2), clock advanced by 0 s .. several seconds. Ids must be unique among the messages present and never reused within one process lifetime; reuse of a removed message's id across a restart is counted, not demanded (DESIGN §11.8)."),
+         "Trusted: reference model, simulated disk. Restart = same directory tree, new Store object, package-level process state (the message id counter) starts over as in a new process (overlay generated into the scratch copy, DESIGN §11.2), clock advanced by 0 s .. several seconds; a restart may come with a different mailbox cap; 1/30 of the histories start in a process that has already issued ~9 990 ids (counter wrap). Ids must be unique among the messages present and never reused within one process lifetime; reuse of a removed message's id across a restart is counted, not demanded (DESIGN §11.8)."),
  "C11": ("fault_enumeration", "DESIGN.md §4 C11",
          "deterministic simulation with crash injection: a crash image of the simulated disk is taken before EVERY file-system mutation step (and at partial lengths of every write call) of every mutating operation; each image is reopened and checked against the before/after reference models",
          "Crash points are enumerated exhaustively within each sampled history (every mkdir/create/write/rename/remove/rmdir step, partial writes included); histories are seeded samples. Each image must list and visit without error, keep untouched mailboxes intact with full content, show the interrupted operation as all-or-nothing, and accept a new delivery that leaves the surviving mail intact (the restarted process starts its id counter over). A second client runs concurrently, so crash images with two operations in flight are covered.",
@@ -27,21 +27,21 @@ CHECKS = {
  "C09": ("exploration", "DESIGN.md §4 C09",
          "deterministic simulation: concurrent client tasks on the real stores under a seeded token scheduler (every lock, channel op, FS step is a scheduling point); recorded histories checked for linearizability with porcupine against a sequential mailbox model; crash/deadlock verdicts of the scheduler; quiescence invariants when size evictions fire; race-mode companion (ThreadSanitizer on the seeded schedules) for the data-race clause",
          "Seeded search over interleavings of 2-4 clients (plus a real retention scan) on mem/file stores with and without cap/maxkb, including mailboxes sharing a lock bucket/hash directory. One seed = one exactly replayable schedule; failures are minimised and replay-verified in fresh processes.",
-         "Pre-emption granularity is the instrumented operation. The 'no data race' clause is decided by the race-mode companion C09R (same workloads in a -race binary with the simulator's hand-off hidden from ThreadSanitizer and Inbucket's own synchronisation published; memory store, DESIGN §11.7). The system-level companion C09S runs SMTP, REST and POP3 actors concurrently on shared (pre-filled) mailboxes of both back-ends with an acknowledged-delivery / acknowledged-deletion oracle, and again in race mode (C09SR). Histories are bounded (<=14 ops + prefill) so porcupine stays tractable; its timeouts count as inconclusive."),
+         "Pre-emption granularity is the instrumented operation. The 'no data race' clause is decided by the race-mode companion C09R (same workloads in a -race binary with the simulator's hand-off hidden from ThreadSanitizer and Inbucket's own synchronisation published; memory store, DESIGN §11.7). The system-level companion C09S runs SMTP, REST and POP3 actors concurrently on shared (pre-filled) mailboxes of both back-ends with an acknowledged-delivery / acknowledged-deletion oracle, and again in race mode (C09SR); REST actors also fetch messages and sources (200 and that message, or 404). At quiescence of size-limited runs everything is purged and the whole capacity must be usable (no accounting drift). Histories are bounded (<=14 ops + prefill) so porcupine stays tractable; its timeouts count as inconclusive."),
  "C16": ("exploration", "DESIGN.md §4 C16",
          "deterministic simulation: operation histories on the real stores/manager/retention scanner with observers on the public extension host; the seeded scheduler decides when every asynchronous event goroutine runs; exactly-once conservation, non-overlap and causal-order oracles at quiescence",
          "Seeded search over operation histories x limit configurations x schedules of the asynchronous event dispatch. At quiescence every id that ever was listed has exactly one stored event, exactly one deleted event iff gone (whatever removed it), no observer invocation overlaps another, stored precedes deleted, stored events of a mailbox arrive in arrival order.",
-         "In a third of the runs two clients issue the operations pairwise concurrently (conservation and non-overlap clauses only; the order clauses are about sequential operations). One known finding (oversized delivery under maxkb: deleted precedes stored) is listed in known_findings.json and avoided in the main batch by an 'oversize' generator switch; a dedicated batch reproduces it on every run."),
+         "In a third of the runs two clients issue the operations pairwise concurrently (conservation and non-overlap clauses only; the order clauses are about sequential operations); sequential file-store histories may have a disk error or stall during one operation (which may then fail; the events must still match what really left the mailbox). One known finding (oversized delivery under maxkb: deleted precedes stored) is listed in known_findings.json and avoided in the main batch by an 'oversize' generator switch; a dedicated batch reproduces it on every run."),
  "C01": ("exploration", "DESIGN.md §4 C01",
          "deterministic simulation: whole SMTP->manager->store path on a simulated network (seeded segmentation, delay, buffers, cuts), 1-3 concurrent reply-driven clients, per-run configuration swarm; conservation oracle over ALL mailboxes at quiescence against reference naming/policy models",
          "Seeded search over SMTP dialogues x configurations x connection behaviour; what the store holds at the end must equal what the replies promised (exactly one copy per accepted, storable recipient of every 250-acknowledged transaction, nothing for refused/reset/incomplete ones, nothing in any other mailbox).",
-         "Addresses restricted to the class where naming is undisputed (C04 covers the rest); cap/size limit/retention off. Disk errors (EIO/ENOSPC windows) are injected while transactions are stored on the file back-end: 250 still means stored, a transaction refused after a fault may leave copies with its own recipients only. Race-mode companion C01R (same workloads in a -race binary, both back-ends) sees unsynchronised state shared between sessions in code that has no scheduling point (DESIGN §11.7). Trusted: reference naming and policy models (sim/models), simulated TCP semantics."),
+         "Addresses restricted to the class where naming is undisputed (C04 covers the rest); cap/size limit/retention off. Disk errors (EIO/ENOSPC windows) and disk stalls (steps taking seconds) are injected while transactions are stored on the file back-end: 250 still means stored, a transaction refused after a fault may leave copies with its own recipients only. Race-mode companion C01R (same workloads in a -race binary, both back-ends) sees unsynchronised state shared between sessions in code that has no scheduling point (DESIGN §11.7). Trusted: reference naming and policy models (sim/models), simulated TCP semantics."),
  "C03": ("fault_enumeration", "DESIGN.md §4 C03",
          "deterministic simulation with fault enumeration: SMTP session vs a reference state machine line by line (exactly one well-formed reply, sequencing constraints), connection cut (FIN/RST) at enumerated byte offsets of valid dialogues, client stalls past the idle timeout; store checked afterwards",
          "Per sampled dialogue the cut offsets are enumerated (quick: 14-33 seeded offsets + both ends; thorough: every byte offset for 1/12 of the dialogues); command histories are seeded samples from a grammar including malformed, over-long and binary lines.",
-         "TLS never enabled. The reference state machine constrains acceptance only in the direction the statement gives. Transfers slower than the idle timeout are outside the workload (see DESIGN observations). Command histories optionally run next to a second session delivering valid mail, or (file back-end) with a disk error while one message is stored followed by another transaction on the same connection."),
+         "TLS never enabled. The reference state machine constrains acceptance only in the direction the statement gives. Transfers slower than the idle timeout are outside the workload (see DESIGN observations). Command histories optionally run next to a second session delivering valid mail, or (file back-end) with a disk error or stall while one message is stored followed by another transaction on the same connection; mode P writes a valid dialogue ahead of the replies (whole, per transaction, or up to DATA) and demands one reply per line, the same acceptance as step by step, and the acknowledged messages stored."),
  "C12": ("exploration", "DESIGN.md §4 C12",
-         "deterministic simulation on a simulated clock: real RetentionScanner (DoScan and the Start/Join loop) over both real stores, racing deliveries/removals at seeded simulated instants or at the very moment of the scan, with and without cap / size limit, cancellation at a seeded instant; recording Store wrapper gives scan windows and removals for the oracle",
+         "deterministic simulation on a simulated clock: real RetentionScanner (DoScan and the Start/Join loop) over both real stores, racing deliveries/removals at seeded simulated instants or at the very moment of the scan, with and without cap / size limit, cancellation (after which a scan with a pause between mailboxes may touch at most two more mailboxes) at a seeded instant; recording Store wrapper gives scan windows and removals for the oracle",
          "Seeded search over age distributions around the cutoff (+-1ns, +-1s, ...), periods, sleeps, back-ends, racers and cancellation times; hours of simulated time per run cost microseconds.",
          "Message dates are those passed to AddMessage. Young-message preservation is asserted for every scanner removal; completeness for scans that finished before cancellation."),
  "C05": ("exploration", "DESIGN.md §4 C05",
@@ -51,7 +51,7 @@ CHECKS = {
  "C06": ("exploration", "DESIGN.md §4 C06",
          "deterministic simulation: SMTP DATA with sizes around a per-run limit, SIZE parameter absent/truthful/understated/overstated, seeded segmentation and buffers; refuse/accept oracle with a slack band, session reuse, store read back",
          "Seeded search over limits x sizes on both sides of the limit x SIZE parameter variants x connection segmentation; bodies are streamed through small simulated buffers so the server's read loop runs through its refill path.",
-         "Sizes within 512 bytes of the limit, or on different sides of it depending on whether line ends count as CRLF or LF, are unconstrained (what 'size' counts is not fixed by the statement). A third of the runs end with a message whose data is never finished (closed, reset or silent past the timeout), above or below the limit: nothing of it may be stored."),
+         "Sizes within 512 bytes of the limit, or on different sides of it depending on whether line ends count as CRLF or LF, are unconstrained (what 'size' counts is not fixed by the statement). A third of the runs end with a message whose data is never finished (closed, reset or silent past the timeout), above or below the limit: nothing of it may be stored. Optional allow/defer listener at MAIL (a declared SIZE over the limit is refused all the same), NOOP written in the same segment as the end of the data (the session must stay in step), and a message found in another transaction's mailbox is a violation."),
  "C15": ("exploration", "DESIGN.md §4 C15",
          "deterministic simulation: real message hub, real v1/v2 WebSocket monitor handlers (gorilla server and client over simulated connections, upgrade shim in place of net/http) and harness listeners under the seeded scheduler; clients stop reading, close or reset at seeded points with events queued; per-listener sequence oracle against a history model plus a bounded-progress check of the hub",
          "Seeded search over scripts of dispatches, deletes, bursts, joins, idles and syncs x history lengths x listener kinds and fault timings x schedules (broadcast order over the listener set, select order in the writer, every channel operation is a scheduling point).",
@@ -71,9 +71,9 @@ CHECKS = {
  "C02": ("exploration", "DESIGN.md §4 C02",
          "deterministic simulation: one adversarial message per run through the real SMTP server, manager and store on the simulated network (seeded segmentation, small buffers), read back through the store, the REST and web-UI source handlers (real router) and the real POP3 server; byte-exact oracle after CRLF->LF normalisation",
          "Seeded search over body shapes (dot lines, lone dot, bare CR/LF, NUL/8-bit, lines up to 200 KB / 3 MiB, missing final newline) x back-ends x segmentations of the SMTP and POP3 streams.",
-         "A third of the runs keep the server busy (second SMTP session delivering four other messages alongside; REST, web-UI and POP3 readers fetching concurrently); on the file back-end a disk error may hit while the message is stored (then 250 must still mean stored byte for byte). HTTP handlers are invoked through the real router with a recording writer (no net/http server loop). A CR right before CRLF/end of data and a dot right after a bare LF are not generated (no defined expectation)."),
+         "A third of the runs keep the server busy (second SMTP session delivering four other messages alongside; REST, web-UI and POP3 readers fetching concurrently; a poller asking for latest/source while mail arrives; one POP3 session retrieving several messages including a 150 000-byte line after a large message); every response's Content-Length must equal its body; on the file back-end a disk error or stall may hit while the message is stored (then 250 must still mean stored byte for byte). HTTP handlers are invoked through the real router with a recording writer (no net/http server loop). A CR right before CRLF/end of data and a dot right after a bare LF are not generated (no defined expectation)."),
  "C04": ("exploration", "DESIGN.md §4 C04",
-         "deterministic simulation (reach, not schedule power - see caveat): mail delivered over the real SMTP server to generated addresses in each naming mode is looked up through REST, web UI, Go client and POP3 by the address as sent, the reference model's name, the server-reported name, case-permuted and +tag variants, and deleted through POP3 (DELE+QUIT) by the last spelling tried; independent naming reference model",
+         "deterministic simulation (reach, not schedule power - see caveat): mail delivered over the real SMTP server to generated addresses in each naming mode is looked up through REST, web UI, Go client and POP3 by the address as sent, the reference model's name, the server-reported name, case-permuted and +tag variants, and deleted through POP3 (DELE+QUIT) by the last spelling tried; the per-mailbox WebSocket monitors (v1, v2) are lookup interfaces too; a refused RCPT is sent a second time; independent naming reference model",
          "Seeded search over address shapes (quoted/escaped local parts, source routes, IP literals, mixed case, '+' and '.' placement) x naming modes x lookup keys x interfaces, inside the assembled system. The naming function itself is pure; what the simulation contributes is that every interface of the running system is exercised with the same keys.",
          "naming model written from doc/config.md and the property text, not from pkg/policy. IPv6 literals are not generated."),
  "C14": ("exploration", "DESIGN.md §4 C14",
